@@ -888,6 +888,12 @@ func (nl *NodeList) NodeDescendants(id string, maxDepth int) *NodeList {
 		return &NodeList{}
 	}
 
+	// The start node is at depth 1: nothing is within a depth below that, and
+	// a root element may only name a node that is part of the result.
+	if maxDepth < 1 {
+		return &NodeList{}
+	}
+
 	nl2 := NodeList{
 		Nodes:        []*Node{},
 		Edges:        nl.Edges,
